@@ -448,6 +448,14 @@ def run(ctx: Ctx) -> None:
     from ..lexmodel import LexModel as _LexModel
     _fillmodel.obligations(ctx, "R14.10", ctx.repo.mod("lexer"), set(_LexModel(ctx.repo).udl_start), ("keep", "udl"))
 
+    # ---------------------------------------------------------------- R14.12
+    # "template arguments ... exactly the source tokens": the raw Value of a template argument is made from the argument's
+    # own tokens before the trial parse re-uses them (no end marker in it, nothing of a nested argument) -- C02's R2.2
+    # region rule, evaluated here under this property's id.
+    from . import c02 as _c02_
+    from ..report import run_shared
+    run_shared(ctx, _c02_.run, {"R2.2": ("R14.12", "the raw value of a template argument is created from its own token list before the trial parse touches it")})
+
     # ---------------------------------------------------------------- R14.6
     # pragma contents end at the line end: a discarded token that swallows its newline must
     # end the directive, or the next declaration's tokens become part of the pragma's Value
